@@ -487,7 +487,7 @@ theorem copy0_wf (s : AForest) (o : Nat) (hw : WF s) : WF (s.copy0 o) := by
       have e2 := hnew k tl a h2 hb
       have hc1 := Slot.code_lt sl
       have hc2 := Slot.code_lt tl
-      have hcount : Slot.count = 7 := rfl
+      have hcount : Slot.count = 8 := rfl
       rw [hcount] at e1 e2 hc1 hc2
       have hjk : j - s.f.n = k - s.f.n := by omega
       have hcode : sl.code = tl.code := by omega
@@ -783,10 +783,6 @@ theorem child_notP (f : Forest) (P : Nat → Prop) (hi : f.Inv) (hc : Closed f P
     (hy : y ∈ f.children c) : ¬ P y :=
   (hc y c ((hi.parent_iff y c).mpr hy)).not.mpr hcc
 
-theorem dropWhere_fkeeps (f : Forest) (P : Nat → Prop) (hi : f.Inv) (hc : Closed f P) (c : Nat) (hcc : ¬ P c)
-    (drop : Nat → Bool) : FKeeps P f (f.dropWhere c drop) ∧ Closed (f.dropWhere c drop) P :=
-  fold_detach_fkeeps P _ f hc (fun o ho => child_notP f P hi hc c o hcc (List.mem_of_mem_filter ho))
-
 theorem flat_notP (f : Forest) (P : Nat → Prop) (hi : f.Inv) (hc : Closed f P) :
     ∀ (k o : Nat), ¬ P o → ∀ x ∈ f.flat k o, ¬ P x := by
   intro k
@@ -812,28 +808,59 @@ theorem fresh_fkeeps (f : Forest) (P : Nat → Prop) (hc : Closed f P) (hP : ∀
     · subst hy; simp [upd] at hyc
     · rw [upd_other _ _ _ _ hy] at hyc; exact hc y c hyc
 
+theorem unlinked_fkeeps (f : Forest) (P : Nat → Prop) (hi : f.Inv) (hc : Closed f P) (c : Nat) (hcc : ¬ P c)
+    (removed : List Nat) (hsub : ∀ x ∈ removed, x ∈ f.children c) :
+    FKeeps P f (f.unlinked c removed) ∧ Closed (f.unlinked c removed) P := by
+  constructor
+  · intro j hj
+    have hjc : j ≠ c := fun h => hcc (h ▸ hj)
+    have hjr : j ∉ removed := fun h => child_notP f P hi hc c j hcc (hsub j h) hj
+    refine ⟨by rw [unlinked_parent, if_neg hjr], by rw [unlinked_children, if_neg hjc], ?_, ?_, ?_,
+      by rw [(unlinked_kind_n f c removed).1]⟩ <;> simp [unlinked, sync, setParents_eq, upd, hjc]
+  · intro y d hyd
+    rw [unlinked_parent] at hyd
+    split at hyd
+    · cases hyd
+    · exact hc y d hyd
+
+theorem replaceChildren_fkeeps (f : Forest) (P : Nat → Prop) (hi : f.Inv) (hc : Closed f P) (c : Nat) (hcc : ¬ P c)
+    (removed new : List Nat) (hsub : ∀ x ∈ removed, x ∈ f.children c) (hnew : ∀ o ∈ new, ¬ P o) :
+    FKeeps P f (f.replaceChildren c removed new).1 ∧ Closed (f.replaceChildren c removed new).1 P := by
+  by_cases hr : (f.replaceChildren c removed new).2 = false
+  · rw [replaceChildren_rejected f c removed new hi hsub hr]; exact ⟨FKeeps.refl P f, hc⟩
+  · rw [replaceChildren_eq] at hr ⊢
+    split
+    · obtain ⟨a1, a2⟩ := unlinked_fkeeps f P hi hc c hcc removed hsub
+      obtain ⟨b1, b2⟩ := add_fkeeps _ P a2 c new true hcc hnew
+      exact ⟨a1.trans b1, b2⟩
+    · rename_i h2; rw [if_neg h2] at hr; simp at hr
+
 theorem setTyped_fkeeps (f : Forest) (P : Nat → Prop) (hi : f.Inv) (hc : Closed f P) (c : Nat) (k : Kind)
     (objs : List Nat) (hcc : ¬ P c) (hobjs : ∀ o ∈ objs, ¬ P o) :
     FKeeps P f (f.setTyped c k objs).1 ∧ Closed (f.setTyped c k objs).1 P := by
-  obtain ⟨a1, a2⟩ := dropWhere_fkeeps f P hi hc c hcc (fun o => f.kind o = k)
-  have hi1 := (dropWhere_inv f c (fun o => f.kind o = k) hi).1
-  have key : ∀ formatted : List Nat, (∀ o ∈ formatted, ¬ P o) →
-      FKeeps P f ((f.dropWhere c (fun o => f.kind o = k)).add c formatted true).1 ∧
-      Closed ((f.dropWhere c (fun o => f.kind o = k)).add c formatted true).1 P := by
-    intro formatted hf
-    obtain ⟨b1, b2⟩ := add_fkeeps _ P a2 c formatted true hcc hf
-    exact ⟨a1.trans b1, b2⟩
-  have hflat : ∀ o, o ∈ (objs.flatMap ((f.dropWhere c (fun o => f.kind o = k)).flat
-      ((f.dropWhere c (fun o => f.kind o = k)).n + 1))) → ¬ P o := by
+  have hflat : ∀ o, o ∈ (objs.flatMap (f.flat (f.n + 1))) → ¬ P o := by
     intro o ho
     obtain ⟨y, hy, hoy⟩ := List.mem_flatMap.mp ho
-    exact flat_notP _ P hi1 a2 _ y (hobjs y hy) o hoy
+    exact flat_notP f P hi hc _ y (hobjs y hy) o hoy
   unfold setTyped
-  simp only
-  cases k with
-  | coll => exact key _ (fun o ho => hobjs o (List.mem_of_mem_filter ho))
-  | src => exact key _ (fun o ho => hflat o (List.mem_of_mem_filter ho))
-  | sens => exact key _ (fun o ho => hflat o (List.mem_of_mem_filter ho))
+  split
+  · exact ⟨FKeeps.refl P f, hc⟩
+  · rename_i l hl
+    refine replaceChildren_fkeeps f P hi hc c hcc _ l (typed_removed_sub f c k) ?_
+    intro o ho
+    unfold formatTyped at hl
+    cases k with
+    | coll => simp only [Option.some.injEq] at hl; subst hl; exact hobjs o (List.mem_of_mem_filter ho)
+    | src =>
+      simp only at hl
+      split at hl
+      · simp only [Option.some.injEq] at hl; subst hl; exact hflat o (List.mem_of_mem_filter ho)
+      · cases hl
+    | sens =>
+      simp only at hl
+      split at hl
+      · simp only [Option.some.injEq] at hl; subst hl; exact hflat o (List.mem_of_mem_filter ho)
+      · cases hl
 
 /-- the objects a tree operation names -/
 def fmentions : FOp → List Nat
@@ -864,10 +891,8 @@ theorem step_fkeeps (f : Forest) (P : Nat → Prop) (hi : f.Inv) (hc : Closed f 
         (fun o' h => by simp at h; subst h; exact hm o' (by simp [fmentions]))
   | setChildren c objs =>
     simp only [step]; split
-    · have hcc := hm c (by simp [fmentions])
-      obtain ⟨a1, a2⟩ := dropWhere_fkeeps f P hi hc c hcc (fun _ => true)
-      obtain ⟨b1, b2⟩ := add_fkeeps _ P a2 c objs true hcc (fun o h => hm o (by simp [fmentions, h]))
-      exact ⟨a1.trans b1, b2⟩
+    · exact replaceChildren_fkeeps f P hi hc c (hm c (by simp [fmentions])) _ objs (fun _ hx => hx)
+        (fun o h => hm o (by simp [fmentions, h]))
     · exact ⟨FKeeps.refl P f, hc⟩
   | setTyped c k objs =>
     simp only [step]; split
@@ -897,15 +922,11 @@ theorem step_n (f : Forest) (hi : f.Inv) (op : FOp) : (f.step op).1.n = f.n ∨ 
     | some c => exact Or.inl (add_inv f c [o] true hi).2.2
   | setChildren c objs =>
     simp only [step]; split
-    · left
-      obtain ⟨a, _, b⟩ := dropWhere_inv f c (fun _ => true) hi
-      exact (add_inv _ c objs true a).2.2.trans b
+    · exact Or.inl (setChildren_inv f c objs hi).2.2
     · exact Or.inl rfl
   | setTyped c k objs =>
     simp only [step]; split
-    · left
-      obtain ⟨a, _, b⟩ := dropWhere_inv f c (fun o => f.kind o = k) hi
-      exact (add_inv _ c _ true a).2.2.trans b
+    · exact Or.inl (setTyped_inv f c k objs hi).2.2
     · exact Or.inl rfl
   | plus a b =>
     simp only [step]
@@ -1045,10 +1066,15 @@ theorem plus_init_spec (s : AForest) (f' : Forest) (hw : WF s) (hn : f'.n = s.f.
   have h2 := (setFresh_spec _ s.f.n .ori (.rots ([(0 : AVec)].map fun _ => (1 : ARot))) h1.wf).1
   have h12 := (h1.mono (P' := fun j _ => j ≠ s.f.n) (M' := (· ≠ s.f.n)) (fun j tl h hh => h hh.1) (fun _ _ => trivial)).trans
     (h2.mono (fun j tl h hh => h hh.1) (fun _ _ => trivial))
-  have hk12 : Keeps (fun j _ => j ≠ s.f.n) (· ≠ s.f.n) s1 _ := h12.keeps
-  refine ⟨h12.wf, h12.f_eq, ?_⟩
-  have := hk1.trans hk12
-  exact this
+  have h3 := (setFresh_spec _ s.f.n .kids .list h12.wf).1
+  have h123 := h12.trans (h3.mono (P' := fun j _ => j ≠ s.f.n) (M' := (· ≠ s.f.n)) (fun j tl h hh => h hh.1)
+    (fun _ _ => trivial))
+  have hk123 : Keeps (fun j _ => j ≠ s.f.n) (· ≠ s.f.n) s1 _ := h123.keeps
+  have heq : ({ s with f := f' } : AForest).initNode s.f.n collSpec =
+      ((s1.setFresh s.f.n .pos (.vecs [(0 : AVec)])).setFresh s.f.n .ori
+        (.rots ([(0 : AVec)].map fun _ => (1 : ARot)))).setFresh s.f.n .kids .list := rfl
+  rw [heq]
+  exact ⟨h123.wf, h123.f_eq, hk1.trans hk123⟩
 
 theorem copy_closed_lt (s : AForest) (o : Nat) (hi : s.f.Inv) : Closed (s.f.copy o) (· < s.f.n) :=
   copy_closed s.f hi (· < s.f.n) (fun x c h => ⟨fun _ => (hi.inScope x c h).1, fun _ => (hi.inScope x c h).2⟩)
@@ -1113,13 +1139,27 @@ theorem step_sep {P} (s : AForest) (hs : Sep P s) (op : AOp) (hm : ∀ i ∈ men
         rcases step_n s.f hs.inv op with h | h
         · exact h
         · exact absurd h hn
-      refine ⟨⟨⟨?_, ?_⟩, hinv, hac, cl, ?_⟩, ⟨⟨?_, le_refl _, fun _ _ _ _ => rfl, fun _ _ _ _ _ _ => rfl,
-        fun _ _ _ => ⟨rfl, rfl, rfl⟩⟩, fk⟩⟩
-      · intro i sl a hi ha; exact hs.wf.bound i sl a (by rw [← hn']; exact hi) ha
-      · intro i j sl tl a hi hj ha hb
-        exact hs.wf.inj i j sl tl a (by rw [← hn']; exact hi) (by rw [← hn']; exact hj) ha hb
-      · intro j hj; show j < (s.f.step op).1.n; rw [hn']; exact hs.lt j hj
-      · show s.f.n ≤ (s.f.step op).1.n; omega
+      have hbase : Sep P ({ s with f := (s.f.step op).1 } : AForest) ∧
+          Same P s ({ s with f := (s.f.step op).1 } : AForest) := by
+        refine ⟨⟨⟨?_, ?_⟩, hinv, hac, cl, ?_⟩, ⟨⟨?_, le_refl _, fun _ _ _ _ => rfl, fun _ _ _ _ _ _ => rfl,
+          fun _ _ _ => ⟨rfl, rfl, rfl⟩⟩, fk⟩⟩
+        · intro i sl a hi ha; exact hs.wf.bound i sl a (by rw [← hn']; exact hi) ha
+        · intro i j sl tl a hi hj ha hb
+          exact hs.wf.inj i j sl tl a (by rw [← hn']; exact hi) (by rw [← hn']; exact hj) ha hb
+        · intro j hj; show j < (s.f.step op).1.n; rw [hn']; exact hs.lt j hj
+        · show s.f.n ≤ (s.f.step op).1.n; omega
+      cases hq : (if (s.f.step op).2 = true then newList op else none) with
+      | none => exact hbase
+      | some c =>
+        have hcP : ¬ P c := by
+          have hnl : newList op = some c := by
+            split at hq
+            · exact hq
+            · cases hq
+          cases op <;> simp [newList] at hnl <;> subst hnl <;> exact hm _ (by simp [fmentions])
+        obtain ⟨b1, b2⟩ := sep_of_step (P' := fun j tl => ¬ (j = c ∧ tl = .kids)) (M' := fun _ => True) hbase.1
+          (setFresh_spec _ c .kids .list hbase.1.wf).1 (fun j tl hj h => hcP (h.1 ▸ hj)) (fun _ _ => trivial)
+        exact ⟨b1, hbase.2.trans b2⟩
   | move x inp start =>
     have hx := hm x (by simp [mentions])
     simp only [step]
@@ -1238,7 +1278,13 @@ theorem initNode_wf (s : AForest) (i : Nat) (sp : Spec) (hw : WF s) :
       obtain ⟨a, b⟩ := ih _ this.wf
       exact ⟨a, b.trans this.f_eq⟩
   obtain ⟨a, b⟩ := key sp.arrs _ h2.wf
-  exact ⟨a, b.trans (h2.f_eq.trans h1.f_eq)⟩
+  have hb := b.trans (h2.f_eq.trans h1.f_eq)
+  unfold initNode
+  simp only
+  split
+  · have h3 := (setFresh_spec _ i .kids .list a).1
+    exact ⟨h3.wf, h3.f_eq.trans hb⟩
+  · exact ⟨a, hb⟩
 
 theorem init_wf (specs : List Spec) : WF (init specs) ∧ (init specs).f = Forest.init (specs.map (·.kind)) := by
   unfold init
